@@ -58,6 +58,16 @@ func Subst(p interface{}, th B) interface{} {
 	case map[string]interface{}:
 		m := make(map[string]interface{}, len(v))
 		for k, e := range v {
+			if IsVar(k) {
+				// a bound variable in key position stands for its value as well
+				if b, ok := th[k]; ok {
+					if ks, ok := b.(string); ok {
+						k = ks
+					} else {
+						k = "\x00no property has this name: " + Canon(b)
+					}
+				}
+			}
 			m[k] = Subst(e, th)
 		}
 		return m
